@@ -91,6 +91,22 @@ def _strip_edge(spec):
     return float("inf")
 
 
+def _range_misses_the_law(model, pricer, T):
+    """The cumulant-based range [a, b] of the pricer must cover the law of the Levy part X_T it expands: mean -+ 6 standard
+    deviations, both taken from the model's exponent by central differences (not from the stated cumulants the range is
+    built from).  Returns a message, or None."""
+    levy = getattr(model, "levy_model", model)
+    s_ = 1e-3
+    k0, kp, km = (complex(levy.levy_exponent(-1j * v)).real for v in (0.0, s_, -s_))
+    mean = (kp - km) / (2 * s_) * T
+    var = max((kp - 2 * k0 + km) / s_ ** 2, 0.0) * T
+    a, b = (float(v) for v in pricer._interval_a_b(t=T))
+    lo, hi = mean - 6 * math.sqrt(var), mean + 6 * math.sqrt(var)
+    if not (a <= lo and hi <= b):
+        return f"range [{a}, {b}] of the expansion does not contain mean -+ 6 std = [{lo}, {hi}] of X_T"
+    return None
+
+
 def body_arbitrage(case):
     from rpylib.numerical.cosmethod import COSPricer
 
@@ -105,6 +121,9 @@ def body_arbitrage(case):
     spot = e["spot"]
     br = branch_of(spec)
     p1, p2 = COSPricer(model, n=10_000, l=10), COSPricer(model, n=40_000, l=20)
+    miss = _range_misses_the_law(model, p1, T)
+    if miss:
+        return [Violation(f"C18/cos/{br}/truncation-range-does-not-cover-the-law", f"{miss}; case={case}")]
     ks = _ladder(p1, spot, T, case["nk"], (spec["exp"]["r"] - spec["exp"]["d"]) * T)
     if not np.all(np.isfinite(ks)) or ks[0] <= 0 or np.any(np.diff(ks) <= 0):
         return [Violation("REJECTED", "degenerate strike ladder")]
@@ -279,6 +298,9 @@ def body_cross(case):
     spot = spec["exp"]["spot"]
     br = branch_of(spec)
     p1, p2 = COSPricer(model, n=10_000, l=10), COSPricer(model, n=40_000, l=20)
+    miss = _range_misses_the_law(model, p1, T)
+    if miss:
+        return [Violation(f"C18/cos/{br}/truncation-range-does-not-cover-the-law", f"{miss}; case={case}")]
     ks = _ladder(p1, spot, T, case["nk"], (spec["exp"]["r"] - spec["exp"]["d"]) * T)
     if not np.all(np.isfinite(ks)) or ks[0] <= 0:
         return [Violation("REJECTED", "degenerate strike ladder")]
